@@ -247,7 +247,9 @@ def make_specs(ctx, grids):
         b = round(rng.uniform(-1.5, 1.5), 3)
         k = rng.choice([0, 0, 1, 2, 3, 4])
         return {"src": src, "seed": rng.randrange(1 << 30), "k": k, "arcs": rng.random() < 0.9,
-                "s": round(rng.uniform(0.75, 1.3), 4), "theta": rng.uniform(0, 2 * math.pi),
+                "s": round(rng.uniform(0.75, 1.3), 4),
+                # one case in five keeps the catalogue's own axes (exactly axis-parallel interfaces in the square / brick tissues)
+                "theta": 0.0 if rng.random() < 0.2 else rng.uniform(0, 2 * math.pi),
                 "tx": round(rng.uniform(-8, 8), 3), "ty": round(rng.uniform(-8, 8), 3),
                 "reflect": rng.random() < 0.3, "id_offset": rng.choice([0, 0, 5, 100]),
                 "id_stride": rng.choice([1, 1, 3]), "shuffle": rng.random() < 0.5,
